@@ -69,7 +69,7 @@ SEQ = re.compile(
 
 
 def shards(tier):
-    n = 1500 if tier == 'quick' else 80000
+    n = 4000 if tier == 'quick' else 80000
     out = []
     if tier == 'thorough':
         # bounded sub-tiers first, so that the random search gets whatever budget is left
